@@ -368,7 +368,16 @@ def classify(unit, res, gen_file):
     status = 'failed'
     for d in errors:
         msg = d.get('message', '')
-        spans = [s for s in d.get('spans', []) if os.path.basename(s['file_name']) == base]
+        spans = []
+        for s0 in d.get('spans', []):
+            s1 = s0
+            while s1 is not None:
+                if os.path.basename(s1['file_name']) == base:
+                    s2 = dict(s1)
+                    s2['is_primary'] = s0.get('is_primary')
+                    spans.append(s2)
+                    break
+                s1 = (s1.get('expansion') or {}).get('span')
         prim = [s for s in spans if s.get('is_primary')]
         owner = None
         site = None
